@@ -231,6 +231,10 @@ func (op *Operation) Closest() *k_nearest_nodes.Type {
 
 func (op *Operation) startQuery() {
 	a := op.popClosestUnqueried()
+	// The same address can be in the unqueried set under several IDs: it is still only queried once.
+	if _, ok := op.queried[addrString(a.Addr.String())]; ok {
+		return
+	}
 	op.markQueried(a.Addr)
 	op.outstanding++
 	go func() {
